@@ -322,7 +322,7 @@ def run(ctx):
     rng = ctx.rng
     quick = ctx.tier == 'quick'
     coq_cases, fails = [], []
-    for _ in range(700 if quick else 10000):
+    for _ in range(700 if quick else 4000):
         case = gen_case(rng)
         obs, outs = observe(case)
         why = oracle(case, obs, outs)
@@ -332,7 +332,7 @@ def run(ctx):
         ctx.count(('q', repr(case)), nontrivial=bool(case['cache']))
         ctx.hist('lookup' if case['lookup'] else f"browser:{len(outs)}-packets")
     resp_cases = []
-    for _ in range(400 if quick else 6000):
+    for _ in range(400 if quick else 2500):
         case = gen_resp_case(rng)
         obs, why = observe_resp(case)
         if why:
@@ -356,7 +356,7 @@ def run(ctx):
     corpus_sc = unjson(json.load(open(os.path.join(common.VERIF, 'corpus', 'c13_lookup_third_query.json'))))
     for k in ('pre', 'during'):
         corpus_sc[k] = [tuple(d) for d in corpus_sc[k]]
-    for i in range(1 + (80 if quick else 1500)):
+    for i in range(1 + (80 if quick else 600)):
         if i == 0:
             sc = corpus_sc                # the recorded finding C13-lookup-third-query-early
         else:
